@@ -3,6 +3,7 @@
 package app
 
 import (
+	"sort"
 	"fmt"
 	"math/rand"
 	"strings"
@@ -119,7 +120,7 @@ func c10one(t *testing.T, out *verifh.Out, r *rand.Rand, dir string) {
 		nd.SuperReadOnly = nd.ReadOnly
 		nd.Offline = r.Intn(4) == 0
 		nd.SemiSlave = r.Intn(2) == 0
-		kindOf := r.Intn(8)
+		kindOf := r.Intn(9)
 		if focus && h == hosts[1] {
 			kindOf = 3
 		}
@@ -145,6 +146,9 @@ func c10one(t *testing.T, out *verifh.Out, r *rand.Rand, dir string) {
 			nd.Repl.SQL, nd.Repl.SQLErrno = false, 1062
 		case 6: // unreachable
 			nd.Alive = false
+		case 8: // wrong source and permanently broken: it is still re-pointed (only the repair methods are pointless)
+			nd.Repl.Source = "decoy1"
+			nd.Repl.IO, nd.Repl.IOErrno = false, 1236
 		}
 	}
 	fault := r.Intn(4) == 0
@@ -183,11 +187,21 @@ func c10one(t *testing.T, out *verifh.Out, r *rand.Rand, dir string) {
 			decoys = append(decoys, dropHost)
 		}
 		wd.ClearFaults()
-		fh, fo := "", ""
+		fh, fo, fkind := "", "", ""
 		if stickyHost != "" {
 			// a statement that fails on this server every time, for the whole run
 			fh, fo = stickyHost, stickyOp
 			wd.AddFault(fh, fo, 0, stickyMode)
+		} else if fault && r.Intn(5) == 0 {
+			// a coordination write fails while a host that claims to be master is being dealt with: the list update that
+			// belongs to marking it for recovery
+			for _, h := range hosts[1:] {
+				if wd.Nodes[h].Repl == nil && wd.Nodes[h].Alive {
+					fh, fo, fkind = h, "dcs_set_active_nodes", "dcs"
+					wd.AddFault("dcs:active_nodes", "set", 1, "err")
+					break
+				}
+			}
 		} else if fault && r.Intn(2) == 0 {
 			fh = hosts[1+r.Intn(n-1)]
 			fo = []string{"set_ro_super", "stop_replica", "change_source", "start_replica", "reset_replica_all", "set_offline"}[r.Intn(6)]
@@ -299,7 +313,9 @@ func c10one(t *testing.T, out *verifh.Out, r *rand.Rand, dir string) {
 		}
 		out.Line(map[string]any{"k": "c10pass", "cfg": map[string]any{"aggressive": cfg.ReplicationRepairAggressiveMode, "max_attempts": cfg.ReplicationRepairMaxAttempts, "cooldown": int64(cfg.ReplicationRepairCooldown)},
 			"cs": vCSList(cs), "master": master, "hosts": hosts, "now": now.UnixNano(), "repair_before": before, "repair_after": after,
-			"acts": perHost, "raw_ops": rawOps, "decoy_hits": decoyHits, "self_source": selfSource, "master_writes": masterWrites, "fault": map[string]string{"host": fh, "op": fo},
+			"acts": perHost, "raw_ops": rawOps, "decoy_hits": decoyHits, "self_source": selfSource, "master_writes": masterWrites, "fault": map[string]string{"host": fh, "op": fo, "kind": fkind},
+			"recovery_after": func() []string { var l []string; for k := range tree.Snapshot("recovery") { if strings.HasPrefix(k, "recovery/") { l = append(l, k[9:]) } }; sort.Strings(l); return l }(),
+			"active_after": func() []string { var l []string; tree.GetJSON("active_nodes", &l); return l }(),
 			"panic": panicked, "pass": p, "passes": passes, "start_clears": startClears, "faulty_run": fault, "nodes_after": wd.Digest(), "executed_before": executedBefore, "dropped": map[bool]string{true: dropHost, false: ""}[dropAt >= 0 && p >= dropAt], "local": local, "resets": resetsNow, "starts": startsNow})
 		_ = strings.Join
 		if panicked != "" {
